@@ -59,8 +59,8 @@ def _ops(draw):
     times = [0.0, 1.0, -2.0, 0.5, 7.25]
     ops = []
     for _ in range(nops):
-        kind = draw(st.sampled_from(["jac", "jac", "jac", "jac", "hook", "unhook", "assign", "order", "call"]))
-        if kind in ("jac", "call"):
+        kind = draw(st.sampled_from(["jac", "jac", "jac", "jac", "hook", "unhook", "assign", "order", "call", "other_jac", "other_jac"]))
+        if kind in ("jac", "call", "other_jac"):
             ops.append([kind, draw(st.sampled_from(times)), draw(PR.state(shape))])
         elif kind in ("hook", "assign"):
             ops.append([kind, draw(st.integers(0, 2))])
@@ -178,6 +178,9 @@ def _check_wrapper(case):
         def target(t, y, **kw):
             return f(t, y)
     w = DiffRHS(target)
+    # a second wrapper around the SAME callable (OdeSystem copies the DiffRHS it is given; a user may wrap one function twice):
+    # what it is asked must not leak into the answers of the first
+    w2 = DiffRHS(target) if any(o[0] == "other_jac" for o in case["ops"]) else None
     model_user = "own" if case["own_jac"] else None
     viols = []
     times = set()
@@ -220,6 +223,16 @@ def _check_wrapper(case):
                                 op[1], err, allowed, {tt: float(np.max(np.abs(J - f.jac(np.float64(tt), y)))) for tt in sorted(times)}, hist), "fd:value", **attrs))
                 if w.njev != njev:
                     viols.append(V("njev", "njev = {} after {} Jacobian requests{}".format(w.njev, njev, hist), "njev", **attrs))
+            elif kind == "other_jac":
+                t = np.float64(op[1])
+                y = np.asarray(op[2], dtype=np.float64).reshape(shape)
+                times.add(op[1])
+                nlog = len(log)
+                J2 = np.asarray(w2.jac(t, y))
+                want2 = np.asarray(f.jac(t, y)) * (10.0 if case["own_jac"] else 1.0)
+                err2 = float(np.max(np.abs(J2.reshape(want2.shape) - want2))) if J2.size == want2.size else float("inf")
+                if not err2 <= 1e-6 * (float(np.max(np.abs(want2))) + float(np.max(np.abs(f(t, y)))) + 1e-3):
+                    viols.append(V("wrapper_value", "a second wrapper around the same function, asked at t={}, is off by {:.3e}{}".format(op[1], err2, hist), "fd:value:second", **attrs))
             elif kind == "call":
                 t = np.float64(op[1])
                 y = np.asarray(op[2], dtype=np.float64).reshape(shape)
